@@ -333,6 +333,42 @@ let model_keys (p : prog) : string list * string =
   let fin_s = match fin with RunOk -> "ok" | RunPanic pn -> "panic " ^ panic_str pn | RunFuel -> "fuel" in
   (List.sort compare (Hashtbl.fold (fun k () acc -> k :: acc) tbl []), fin_s)
 
+
+(* ---------- C02/C03: RC11 outcome sets of litmus programs ---------- *)
+(* The litmus threads are bodies 1..n; body 0 (main) only spawns and joins. *)
+let rc11_keys (strong : bool) (p : prog) : string list =
+  let bodies = p.p_bodies in
+  let threads = match bodies with [] -> [] | _ :: t -> t in
+  let decls = Array.of_list p.p_decls in
+  let init (a : nat) : n =
+    let i = int_of_nat a in
+    if i < Array.length decls then (match decls.(i) with DAtomic v -> v | _ -> N0) else N0 in
+  let fuel = S (rc11_enough_fuel threads) in
+  let outs = rc11_outcomes strong (not strong) init threads fuel in
+  let main = match bodies with [] -> [] | m :: _ -> m in
+  let main_items = List.mapi (fun pc _ -> (0, pc, "-")) main in
+  let tbl = Hashtbl.create 64 in
+  List.iter
+    (fun (o : n list list) ->
+      let items =
+        List.concat
+          (List.mapi
+             (fun ti (vals : n list) ->
+               let body = List.nth threads ti in
+               List.mapi
+                 (fun pc v ->
+                   let r =
+                     match List.nth body pc with
+                     | ILoad _ | IRmw _ -> string_of_n v
+                     | ICas (_, e, _, _, _) -> (if string_of_n v = string_of_n e then "ok " else "err ") ^ string_of_n v
+                     | _ -> "-" in
+                   (ti + 1, pc, r))
+                 vals)
+             o) in
+      Hashtbl.replace tbl ("ok|" ^ key_of_logs (main_items @ items)) ())
+    outs;
+  List.sort compare (Hashtbl.fold (fun k () acc -> k :: acc) tbl [])
+
 let keys_file which file =
   let ic = open_in file in
   let n = ref 0 in
@@ -344,6 +380,7 @@ let keys_file which file =
          Printf.printf "PROG %d %s\n" !n id;
          (match which with
          | `Ref w -> List.iter (fun k -> Printf.printf "K %s\n" k) (ref_keys w p)
+         | `Rc11 st -> List.iter (fun k -> Printf.printf "K %s\n" k) (rc11_keys st p)
          | `Model ->
              let ks, fin = model_keys p in
              List.iter (fun k -> Printf.printf "K %s\n" k) ks;
@@ -587,6 +624,8 @@ let () =
   | [ _; "num"; f ] -> num_file f
   | [ _; "ref"; f ] -> keys_file (`Ref false) f
   | [ _; "refw"; f ] -> keys_file (`Ref true) f
+  | [ _; "rc11s"; f ] -> keys_file (`Rc11 true) f
+  | [ _; "rc11w"; f ] -> keys_file (`Rc11 false) f
   | [ _; "keys"; f ] -> keys_file `Model f
   | _ ->
       prerr_endline "usage: driver run|ref|keys <programs> | replay <harness-output>";
